@@ -683,3 +683,103 @@ func (P *Prog) cloverIface(t types.Type) bool {
 	}
 	return strings.HasPrefix(n.Obj().Pkg().Path(), modPath)
 }
+
+// uncheckedImplementers: callers through an interface rely on the contract of the interface method; that is only
+// sound if every method of a clover type that can stand behind the interface is itself verified against that
+// contract (declares `implements <Iface>.<method>`) or is explicitly trusted. Returns one line per method for which
+// neither holds.
+func (P *Prog) uncheckedImplementers(onlyUsed bool) []string {
+	var out []string
+	var keys []string
+	for k, c := range P.cs.ByKey {
+		if c.Iface {
+			keys = append(keys, k)
+		}
+	}
+	sort.Strings(keys)
+	for _, k := range keys {
+		g := P.cs.ByKey[k]
+		if onlyUsed && !g.Used {
+			continue
+		}
+		// key: <pkgpath>.<Iface>.<method>
+		i := strings.LastIndex(k, ".")
+		if i < 0 {
+			continue
+		}
+		method := k[i+1:]
+		j := strings.LastIndex(k[:i], ".")
+		if j < 0 {
+			continue
+		}
+		pkgPath, ifName := k[:j], k[j+1:i]
+		var it *types.Interface
+		var itNamed *types.Named
+		for _, p := range P.pkgs {
+			if p.Pkg.Path() != pkgPath {
+				continue
+			}
+			if tn, ok := p.Pkg.Scope().Lookup(ifName).(*types.TypeName); ok {
+				if n, ok := tn.Type().(*types.Named); ok {
+					if u, ok := n.Underlying().(*types.Interface); ok {
+						it, itNamed = u, n
+					}
+				}
+			}
+		}
+		if it == nil {
+			continue
+		}
+		for _, T := range P.implementers(it) {
+			sel := P.prog.MethodSets.MethodSet(T).Lookup(itNamed.Obj().Pkg(), method)
+			if sel == nil {
+				sel = P.prog.MethodSets.MethodSet(T).Lookup(nil, method)
+			}
+			if sel == nil {
+				continue
+			}
+			f := P.prog.MethodValue(sel)
+			if f == nil || !P.isClover(f) {
+				continue
+			}
+			// a pointer type whose value type already implements: the value method is the one to check
+			fk := P.FnKey(f)
+			if f.Synthetic != "" {
+				// wrapper of a promoted / value method: find the declared method
+				if obj, ok := sel.Obj().(*types.Func); ok {
+					if df := P.prog.FuncValue(obj); df != nil {
+						f, fk = df, P.FnKey(df)
+					}
+				}
+			}
+			c := P.cs.ByKey[fk]
+			ok := false
+			if c != nil {
+				if c.Trusted {
+					ok = true
+				}
+				for cur, n := c, 0; cur != nil && n < 6; n++ {
+					if cur.Key == g.Key || cur.ImplKey == g.Key {
+						ok = true
+						break
+					}
+					if cur.ImplKey == "" {
+						break
+					}
+					cur = P.cs.ByKey[cur.ImplKey]
+				}
+			}
+			if !ok {
+				line := fmt.Sprintf("%s stands behind %s but is not verified against it (no `implements %s.%s`)", fk, g.Key, ifName, method)
+				dup := false
+				for _, o := range out {
+					dup = dup || o == line
+				}
+				if !dup {
+					out = append(out, line)
+				}
+			}
+		}
+	}
+	return out
+}
